@@ -278,7 +278,7 @@ def check_mstep(R, s, model, aff, qf, where):
         if 'fixed_covariance' in s.opts:
             R.check(mon, np.array_equal(model.gaussian.covariance, s.opts['fixed_covariance']), f'mstep/{kind}/fixed-covariance', f'{where}: fixed covariance not kept', **info)
         else:
-            vfloor = 1e-6 * float(np.var(s.data['e'] if kind == 'gcacgmm' else y))
+            vfloor = 1e-6 * float(np.median(np.var(np.asarray(s.data['e'] if kind == 'gcacgmm' else y, dtype=float), axis=-2)))   # per-coordinate spread; a common offset must not inflate it
             R.check(mon, rel(model.gaussian.covariance, cov, vfloor) <= tol * 10, f'mstep/{kind}/gaussian-covariance', f'{where}: Gaussian covariances ({ct}) are not the posterior-weighted scatter (rel {rel(model.gaussian.covariance, cov, vfloor):.2e})', **info)
     if kind in ('vmfmm', 'vmfcacgmm'):
         kmin, kmax = s.opts.get('min_concentration', 1e-10), s.opts.get('max_concentration', 500)
